@@ -4,7 +4,8 @@
 
   One tick of the sweeper is `sweep.begin` (read the clock, take the lock of shard `secsOf now % shards`, list the
   shard's entries), then one `sweep.entry` action per listed entry (a due entry is taken out of the index and evicted
-  by the three actions `kw.remove`, `wu.sub`, `store.remove`; the others are left alone), then `sweep.end`.
+  by the three actions `kw.remove`, `wu.sub`, `store.remove` — unless `kw.remove` finds no charge, or finds that the
+  value stored under the key id has not itself expired, and moves on; the others are left alone), then `sweep.end`.
 
   Layout (section 3 comes before section 2 in the file, which uses `SweepInv`)
     0  what the other threads do to the clock and to the expiry index (`swB_other_step`, `swB_TtlOther`), the
@@ -16,13 +17,21 @@
        was FALSE while the ticker's delete hook was `store.delete(&key)`; the hook is now
        `delete_if_key_id_matches` — `applyEvictId` — and the former counterexample run keeps the new incarnation:
        `C10_layerB_race_keeps_new_incarnation`)
+    4b the check at `kw.remove` (fix 36c87dc: `key_weights.remove_if` re-validates against the store):
+       `C10_layerB_kwRemove_only_if_store_expired` (the charge goes only if the value stored under the key id has
+       expired by its OWN deadline), `C10_layerB_skip_harmless` (section 4), the record of the check along histories
+       (`swB_Checked`, `swB_ChkInv`), `C10_layerB_removes_only_expired_at_check`,
+       `C10_layerB_removes_unexpired_only_after_upsert`, `C10_layerB_never_removes_live_own_deadline`
     3  nothing due is left behind: `SweepInv`, `C10_layerB_locked_shard_frozen`, `C10_layerB_sweepInv_step`,
        `C10_layerB_sweepInv`, `C10_layerB_shard_clean_at_end`
     4  the weight is reclaimed: `C10_layerB_kwRemove_found`, `C10_layerB_sub`, `C10_layerB_storeRemove`,
        `C10_layerB_reclaims`, `C10_layerB_stale_harmless`
-    5  concrete runs (non-vacuity, the counterexamples)
+    5  concrete runs (non-vacuity; the race that used to remove a new incarnation; the second race — an upsert that
+       extends the deadline before the check now keeps the key, `C10_layerB_second_race_fixed`; after the check it still
+       loses it, `C10_layerB_upsert_after_check_loses_key`, known finding D3)
 -/
 import CachedProofs.LayerB.Theorems
+import CachedProofs.LayerB.BijectionLemmas   -- Entries (`C03_layerB_only_these_alter`, `C07_layerB_only_worker_creates`), `ctrans_occ`
 
 namespace Cached
 namespace B
@@ -163,18 +172,53 @@ theorem swB_entry_spec {b b' : BState} {v : Option Nat} {now sh : Nat} {rest : L
       · exact ⟨_, e, rfl, hf, Or.inl ⟨by assumption, rfl⟩⟩
       · exact ⟨_, e, rfl, hf, Or.inr ⟨by assumption, rfl⟩⟩
 
+/-- what "the value stored under key `k` with id `id` has not itself expired" (`unexpiredWithId`, the condition of the
+    ticker's `remove_if` since fix 36c87dc) says when it FAILS: every entry the store holds under `k` with this very id
+    carries a deadline, and the clock has passed it -/
+theorem unexpiredWithId_eq_false_iff (g : State) (k id : Nat) :
+    unexpiredWithId g k id = false ↔
+      ∀ e, g.store.get? k = some e → e.id = id → ∃ t, e.expiry = some t ∧ g.now > t := by
+  unfold unexpiredWithId
+  cases hg : g.store.get? k with
+  | none => simp
+  | some e =>
+    cases he : e.expiry with
+    | none => simp [he]
+    | some t => simp [he]
+
+/-- … and when it HOLDS: the store holds under `k` an entry with this id that has no deadline or whose deadline is
+    still ahead -/
+theorem unexpiredWithId_eq_true_iff (g : State) (k id : Nat) :
+    unexpiredWithId g k id = true ↔
+      ∃ e, g.store.get? k = some e ∧ e.id = id ∧ ∀ t, e.expiry = some t → ¬ g.now > t := by
+  unfold unexpiredWithId
+  cases hg : g.store.get? k with
+  | none => simp
+  | some e =>
+    cases he : e.expiry with
+    | none => simp [he]
+    | some t => simp [he]
+
+/-- `kw.remove` (`key_weights.remove_if`): the charge `wk` of the id is found AND the value stored under `wk.key` with
+    this id has expired by its own deadline (or there is no such value): the charge goes and `wu.sub` is next;
+    otherwise — no charge, or (fix 36c87dc) the stored value has not itself expired — nothing changes but the position.
+    (Adapted: the first disjunct gained `unexpiredWithId … = false`, the second the skip branch.) -/
 theorem swB_kwRemove_spec {b b' : BState} {v : Option Nat} {now sh : Nat} {rest : List (Nat × Nat)} {id : Nat}
     (hs : b.sw = .kwRemove now sh rest id) (h : sweeperAct b v = .ok b') :
-    (∃ wk, b.g.adm.kw.get? id = some wk ∧
+    (∃ wk, (b.g.adm.kw.get? id = some wk ∧ unexpiredWithId b.g wk.key id = false) ∧
       b' = { b with g := { b.g with adm := { b.g.adm with kw := b.g.adm.kw.del id } }, sw := .sub now sh rest id wk }) ∨
-    (b.g.adm.kw.get? id = none ∧ b' = sweepNext b now sh rest) := by
+    ((b.g.adm.kw.get? id = none ∨ ∃ wk, b.g.adm.kw.get? id = some wk ∧ unexpiredWithId b.g wk.key id = true) ∧
+      b' = sweepNext b now sh rest) := by
   cases sweeperAct_trans h
-  case kwRemoveSome n s r i wk hg hs' =>
+  case kwRemoveSome n s r i wk hg hs' hu =>
     rw [hs] at hs'; cases hs'
-    exact Or.inl ⟨wk, hg, rfl⟩
+    exact Or.inl ⟨wk, ⟨hg, hu⟩, rfl⟩
+  case kwRemoveSkip n s r i wk hg hs' hu =>
+    rw [hs] at hs'; cases hs'
+    exact Or.inr ⟨Or.inr ⟨wk, hg, hu⟩, rfl⟩
   case kwRemoveNone n s r i hg hs' =>
     rw [hs] at hs'; cases hs'
-    exact Or.inr ⟨hg, rfl⟩
+    exact Or.inr ⟨Or.inl hg, rfl⟩
   all_goals simp_all
 
 theorem swB_sub_spec {b b' : BState} {v : Option Nat} {now sh : Nat} {rest : List (Nat × Nat)} {id : Nat} {wk : WKey}
@@ -246,9 +290,12 @@ theorem swB_clock_step {b b' : BState} {a : Act} {o o' : Oracle} (hi : ∀ t, b.
     case entryKeep now shard rest id p hf hs =>
       rw [swB_sweepNext_now? _ _ _ _ _ ht]
       exact hi now (by rw [hs]; rfl)
-    case kwRemoveSome now shard rest id wk hg hs =>
+    case kwRemoveSome now shard rest id wk hg hs hu =>
       simp only [SPc.now?, Option.some.injEq] at ht
       exact hi t (by rw [hs, ← ht]; rfl)
+    case kwRemoveSkip now shard rest id wk hg hs hu =>
+      rw [swB_sweepNext_now? _ _ _ _ _ ht]
+      exact hi now (by rw [hs]; rfl)
     case kwRemoveNone now shard rest id hg hs =>
       rw [swB_sweepNext_now? _ _ _ _ _ ht]
       exact hi now (by rw [hs]; rfl)
@@ -689,7 +736,8 @@ theorem C10_layerB_kwRemove_only_if_due {b b' : BState} {a : Act} {o o' : Oracle
 theorem C10_layerB_sub_only_after_kwRemove {b b' : BState} {a : Act} {o o' : Oracle} {now sh id : Nat}
     {r : List (Nat × Nat)} {wk : WKey} (h : stepB b a o = .ok (b', o')) (hs' : b'.sw = .sub now sh r id wk) :
     b.sw = .sub now sh r id wk ∨
-    ((∃ v, a = .sweeper v) ∧ b.sw = .kwRemove now sh r id ∧ b.g.adm.kw.get? id = some wk) := by
+    ((∃ v, a = .sweeper v) ∧ b.sw = .kwRemove now sh r id ∧ b.g.adm.kw.get? id = some wk ∧
+      unexpiredWithId b.g wk.key id = false) := by
   by_cases ha : ∀ v, a ≠ .sweeper v
   · exact Or.inl (by rw [← (swB_other_step h ha).1]; exact hs')
   · obtain ⟨v, rfl⟩ := swB_is_sweeper ha
@@ -707,10 +755,10 @@ theorem C10_layerB_sub_only_after_kwRemove {b b' : BState} {a : Act} {o o' : Ora
       · cases hs'
       · rw [swB_sweepNext_cur] at hcur; cases hcur
     | kwRemove n s rest i =>
-      rcases swB_kwRemove_spec hsw hact with ⟨wk', hk, rfl⟩ | ⟨_, rfl⟩
+      rcases swB_kwRemove_spec hsw hact with ⟨wk', ⟨hk, hu⟩, rfl⟩ | ⟨_, rfl⟩
       · simp only [SPc.sub.injEq] at hs'
         obtain ⟨rfl, rfl, rfl, rfl, rfl⟩ := hs'
-        exact ⟨⟨v, rfl⟩, rfl, hk⟩
+        exact ⟨⟨v, rfl⟩, rfl, hk, hu⟩
       · rw [swB_sweepNext_cur] at hcur; cases hcur
     | sub n s rest i wk' =>
       obtain ⟨_, rfl⟩ := swB_sub_spec hsw hact
@@ -822,16 +870,20 @@ theorem C10_layerB_never_removes_live {cfg : Cfg} {now0 : Nat} {seeds : List Nat
 
 /-! ## 4  the weight is reclaimed -/
 
-/-- `kw.remove` of the evicted id, the charge `wk` found: the charge leaves `key_weights`; total and store untouched -/
+/-- `kw.remove` of the evicted id, the charge `wk` found and the value stored under its key (same id) expired by its own
+    deadline, `hu` — the hypothesis the fix 36c87dc adds; without it the sweeper skips, `C10_layerB_skip_harmless`:
+    the charge leaves `key_weights`; total and store untouched -/
 theorem C10_layerB_kwRemove_found {b b' : BState} {v : Option Nat} {now sh id : Nat} {rest : List (Nat × Nat)}
     {wk : WKey} (hs : b.sw = .kwRemove now sh rest id) (hk : b.g.adm.kw.get? id = some wk)
-    (h : sweeperAct b v = .ok b') :
+    (hu : unexpiredWithId b.g wk.key id = false) (h : sweeperAct b v = .ok b') :
     b' = { b with g := { b.g with adm := { b.g.adm with kw := b.g.adm.kw.del id } }, sw := .sub now sh rest id wk } ∧
     b'.g.adm.kw.get? id = none ∧ b'.g.adm.used = b.g.adm.used ∧ b'.g.store = b.g.store := by
-  rcases swB_kwRemove_spec hs h with ⟨wk', hk', rfl⟩ | ⟨hk', _⟩
+  rcases swB_kwRemove_spec hs h with ⟨wk', ⟨hk', _⟩, rfl⟩ | ⟨hk' | ⟨wk', hk', hu'⟩, _⟩
   · rw [hk] at hk'; cases hk'
     exact ⟨rfl, AMap.get?_del_same _ _, rfl, rfl⟩
   · rw [hk] at hk'; cases hk'
+  · rw [hk] at hk'; cases hk'
+    rw [hu] at hu'; cases hu'
 
 /-- `wu.sub`: exactly `wk.weight` is subtracted from the total, `weight_used` is now held by the sweeper -/
 theorem C10_layerB_sub {b b' : BState} {v : Option Nat} {now sh id : Nat} {rest : List (Nat × Nat)} {wk : WKey}
@@ -872,14 +924,15 @@ theorem C10_layerB_storeRemove_matching {b b' : BState} {v : Option Nat} {now sh
   exact ⟨rfl, AMap.get?_del_same _ _⟩
 
 /-- **The weight of an evicted key is reclaimed.**  The sweeper's three actions of one eviction — `kw.remove` of `id`
-    (which finds the charge `wk`), `wu.sub`, `store.remove` — in ANY interleaving: `b0 → b1`, `b2 → b3`, `b4 → b5` are
+    (which finds the charge `wk` and, `hu`, the value stored under the key id expired by its own deadline), `wu.sub`, `store.remove` — in ANY interleaving: `b0 → b1`, `b2 → b3`, `b4 → b5` are
     the three sweeper actions, `b1 ⇝ b2` and `b3 ⇝ b4` are whatever the other threads do in between (they never move
     the sweeper, `C10_layerB_others_keep_sweeper`, which is all that is assumed of them).  The first removes the charge
     of `id` from `key_weights`, the second subtracts exactly `wk.weight` from the total and takes `weight_used`,
     the third removes the stored entry of `wk.key` if it still carries `id`, releases `weight_used` and moves on. -/
 theorem C10_layerB_reclaims {b0 b1 b2 b3 b4 b5 : BState} {v0 v2 v4 : Option Nat} {now sh id : Nat}
     {rest : List (Nat × Nat)} {wk : WKey} (hs0 : b0.sw = .kwRemove now sh rest id)
-    (hk : b0.g.adm.kw.get? id = some wk) (h01 : sweeperAct b0 v0 = .ok b1) (h12 : b2.sw = b1.sw)
+    (hk : b0.g.adm.kw.get? id = some wk) (hu : unexpiredWithId b0.g wk.key id = false)
+    (h01 : sweeperAct b0 v0 = .ok b1) (h12 : b2.sw = b1.sw)
     (h23 : sweeperAct b2 v2 = .ok b3) (h34 : b4.sw = b3.sw) (h45 : sweeperAct b4 v4 = .ok b5) :
     (b1.g = { b0.g with adm := { b0.g.adm with kw := b0.g.adm.kw.del id } } ∧ b1.g.adm.kw.get? id = none) ∧
     (b3.g = { b2.g with adm := { b2.g.adm with used := b2.g.adm.used - wk.weight } } ∧ b3.wuOwner = some .sweeper) ∧
@@ -887,7 +940,7 @@ theorem C10_layerB_reclaims {b0 b1 b2 b3 b4 b5 : BState} {v0 v2 v4 : Option Nat}
       b5.g.store = (if (b4.g.store.get? wk.key).map (·.id) = some id then b4.g.store.del wk.key else b4.g.store) ∧
       b5.g.adm = b4.g.adm ∧
       b5.wuOwner = none ∧ b5.sw = (sweepNext b4 now sh rest).sw) := by
-  obtain ⟨e1, e2, _, _⟩ := C10_layerB_kwRemove_found hs0 hk h01
+  obtain ⟨e1, e2, _, _⟩ := C10_layerB_kwRemove_found hs0 hk hu h01
   have hs2 : b2.sw = .sub now sh rest id wk := by rw [h12, e1]
   obtain ⟨e3, _, _, _⟩ := C10_layerB_sub hs2 h23
   have hs4 : b4.sw = .store now sh rest id wk := by rw [h34, e3]
@@ -906,9 +959,326 @@ theorem C10_layerB_stale_harmless {b b' : BState} {v : Option Nat} {now sh id : 
     (hs : b.sw = .kwRemove now sh rest id) (hk : b.g.adm.kw.get? id = none) (h : sweeperAct b v = .ok b') :
     b' = sweepNext b now sh rest ∧ b'.g = b.g ∧ b'.wuOwner = b.wuOwner ∧
     ((b'.sw = .entry now sh rest ∧ rest ≠ []) ∨ (b'.sw = .fin ∧ rest = [])) := by
-  rcases swB_kwRemove_spec hs h with ⟨wk', hk', _⟩ | ⟨_, rfl⟩
+  rcases swB_kwRemove_spec hs h with ⟨wk', ⟨hk', _⟩, _⟩ | ⟨_, rfl⟩
   · rw [hk] at hk'; cases hk'
   · exact ⟨rfl, sweepNext_g _ _ _ _, swB_sweepNext_wuOwner _ _ _ _, swB_sweepNext_sw _ _ _ _⟩
+
+/-- **A charged id whose stored value has not itself expired is left alone** (fix 36c87dc: the condition of
+    `key_weights.remove_if` reads the store).  If `kw.remove` finds the charge `wk` of the id but the store holds under
+    `wk.key` an entry with this id that has no deadline or whose deadline is still ahead, nothing is subtracted, nothing
+    of the shared state changes — the key stays stored AND charged — and the sweeper moves on. -/
+theorem C10_layerB_skip_harmless {b b' : BState} {v : Option Nat} {now sh id : Nat} {rest : List (Nat × Nat)}
+    {wk : WKey} (hs : b.sw = .kwRemove now sh rest id) (hk : b.g.adm.kw.get? id = some wk)
+    (hu : unexpiredWithId b.g wk.key id = true) (h : sweeperAct b v = .ok b') :
+    b' = sweepNext b now sh rest ∧ b'.g = b.g ∧ b'.wuOwner = b.wuOwner ∧
+    ((b'.sw = .entry now sh rest ∧ rest ≠ []) ∨ (b'.sw = .fin ∧ rest = [])) := by
+  rcases swB_kwRemove_spec hs h with ⟨wk', ⟨hk', hu'⟩, _⟩ | ⟨_, rfl⟩
+  · rw [hk] at hk'; cases hk'
+    rw [hu] at hu'; cases hu'
+  · exact ⟨rfl, sweepNext_g _ _ _ _, swB_sweepNext_wuOwner _ _ _ _, swB_sweepNext_sw _ _ _ _⟩
+
+/-! ## 4b  the check at `kw.remove` (fix 36c87dc): the sweeper removes only what had expired by its OWN deadline -/
+
+/-- **(1) `kw.remove` takes the charge out only if the stored value itself has expired.**  When the sweeper's
+    `kw.remove` action for `id` takes the charge `wk` out of `key_weights` (it moves on to `wu.sub` holding `wk`), then
+    IN THAT STATE the charge was there, and the store holds under `wk.key` no entry with id `id` whose own deadline is
+    still ahead: every entry stored under that key with this id carries a deadline the clock has passed. -/
+theorem C10_layerB_kwRemove_only_if_store_expired {b b' : BState} {v : Option Nat} {now sh id : Nat}
+    {rest : List (Nat × Nat)} {wk : WKey} (hs : b.sw = .kwRemove now sh rest id) (h : sweeperAct b v = .ok b')
+    (hs' : b'.sw = .sub now sh rest id wk) :
+    b.g.adm.kw.get? id = some wk ∧ unexpiredWithId b.g wk.key id = false ∧
+    (∀ e, b.g.store.get? wk.key = some e → e.id = id → ∃ t, e.expiry = some t ∧ b.g.now > t) := by
+  rcases swB_kwRemove_spec hs h with ⟨wk', ⟨hk, hu⟩, rfl⟩ | ⟨_, rfl⟩
+  · simp only [SPc.sub.injEq, true_and] at hs'
+    subst hs'
+    exact ⟨hk, hu, (unexpiredWithId_eq_false_iff _ _ _).mp hu⟩
+  · have hcur : (sweepNext b now sh rest).sw.cur? = some id := by rw [hs']; rfl
+    rw [swB_sweepNext_cur] at hcur; cases hcur
+
+/-- the same for an action of ANY thread that brings the sweeper to `wu.sub` -/
+theorem C10_layerB_sub_only_if_store_expired {b b' : BState} {a : Act} {o o' : Oracle} {now sh id : Nat}
+    {r : List (Nat × Nat)} {wk : WKey} (h : stepB b a o = .ok (b', o')) (hs' : b'.sw = .sub now sh r id wk)
+    (hne : b.sw ≠ b'.sw) :
+    (∃ v, a = .sweeper v) ∧ b.sw = .kwRemove now sh r id ∧ b.g.adm.kw.get? id = some wk ∧
+    ∀ e, b.g.store.get? wk.key = some e → e.id = id → ∃ t, e.expiry = some t ∧ b.g.now > t := by
+  rcases C10_layerB_sub_only_after_kwRemove h hs' with hsame | ⟨ha, hs, hk, hu⟩
+  · rw [hs', hsame] at hne; exact absurd rfl hne
+  · exact ⟨ha, hs, hk, (unexpiredWithId_eq_false_iff _ _ _).mp hu⟩
+
+/-- an id below the id counter never becomes anybody's fresh id again, and the counter only grows -/
+theorem swB_step_occ {b b' : BState} {a : Act} {o o' : Oracle} (h : stepB b a o = .ok (b', o')) (f : Nat)
+    (hf : f < b.g.nextId) : occ b' f ≤ occ b f ∧ b.g.nextId ≤ b'.g.nextId := by
+  cases a with
+  | issue i r =>
+    simp only [stepB] at h
+    split at h
+    · rename_i b1 hi'
+      simp only [Except.ok.injEq, Prod.mk.injEq] at h; obtain ⟨rfl, rfl⟩ := h
+      refine ⟨issue_occ hi' f, ?_⟩
+      unfold issue at hi'
+      split at hi'
+      · simp only [Except.ok.injEq] at hi'; subst hi'; exact Nat.le_refl _
+      · cases hi'
+    · cases h
+  | client i => exact ⟨ctrans_occ (clientAct_trans h) f hf, ctrans_nextId (clientAct_trans h)⟩
+  | worker => exact ⟨wtrans_occ (workerAct_trans h) f, Nat.le_of_eq (wtrans_nextId (workerAct_trans h)).symm⟩
+  | sweeper v =>
+    obtain ⟨h1, h2, h3, h4, _⟩ := strans_frame (sweeperAct_trans (swB_sweeper_step h))
+    exact ⟨Nat.le_of_eq (occ_congr h3 h2 h1 f), Nat.le_of_eq h4.symm⟩
+  | consumer =>
+    simp only [stepB] at h
+    split at h
+    · rename_i g' out o1 hc
+      simp only [Except.ok.injEq, Prod.mk.injEq] at h; obtain ⟨rfl, rfl⟩ := h
+      have hfr := consumerStep_frame hc
+      have hq : ({ b with g := g' } : BState).g.queue = b.g.queue := by show g'.queue = _; rw [hfr]
+      exact ⟨Nat.le_of_eq (occ_congr hq rfl rfl f), by show b.g.nextId ≤ g'.nextId; rw [hfr]; exact Nat.le_refl _⟩
+    · cases h
+  | advance d =>
+    simp only [stepB, Except.ok.injEq, Prod.mk.injEq] at h; obtain ⟨rfl, rfl⟩ := h
+    exact ⟨Nat.le_refl _, Nat.le_refl _⟩
+
+/-- **One action of any thread and the entry stored under `k` with an id that is nobody's fresh id** (in a state
+    satisfying `WAbsent`: every reachable one).  If the store holds such an entry AFTER the action, it held one with
+    the same id BEFORE it — nobody creates an entry under a used id — and value and deadline are the same unless the
+    action is a client's `upsert.update` of a `put_or_update` of `k` (`C03_layerB_only_these_alter`). -/
+theorem swB_entry_back {b b' : BState} {a : Act} {o o' : Oracle} (hi : WAbsent b) (h : stepB b a o = .ok (b', o'))
+    {k id : Nat} (hocc : occ b id = 0) {e' : Entry} (hk' : b'.g.store.get? k = some e') (hid : e'.id = id) :
+    ∃ e, b.g.store.get? k = some e ∧ e.id = id ∧
+      ((e'.expiry = e.expiry ∧ e'.value = e.value) ∨
+       ∃ i v w ttl rm, a = .client i ∧ b.cl[i]? = some (.upUpdate k v w ttl rm)) := by
+  cases hk : b.g.store.get? k with
+  | none =>
+    obtain ⟨_, c, exp, hw, _, _, rfl⟩ := C07_layerB_only_worker_creates h hk hk'
+    have hpos : 0 < occ b c.id := by simp [occ, hw, WPc.freshId?]
+    simp only [] at hid
+    rw [hid] at hpos; omega
+  | some e =>
+    by_cases hne : e' = e
+    · subst hne; exact ⟨e', rfl, hid, Or.inl ⟨rfl, rfl⟩⟩
+    · obtain ⟨hid', hcase⟩ := C03_layerB_only_these_alter hi h hk hk' hne
+      refine ⟨e, rfl, by rw [← hid']; exact hid, ?_⟩
+      rcases hcase with ⟨i, v, w, ttl, rm, exp, ha, hpc, _, _⟩ | ⟨i, _, _, rfl⟩
+      · exact Or.inr ⟨i, v, w, ttl, rm, ha, hpc⟩
+      · exact Or.inl ⟨rfl, rfl⟩
+
+/-- the action is one of the sweeper's -/
+def swB_isSweeper : Act → Bool
+  | .sweeper _ => true
+  | _ => false
+
+/-- **The record of the check.**  The history `h` (latest first) of a run that stands in state `b` holds the
+    sweeper's `kw.remove` action `p` of the eviction of `id` (charge `wk`): `h = h1 ++ p :: h2`, `h1` what happened
+    since, with exactly `n` sweeper actions in it.  At `p`
+    * the charge `wk` of `id` was in `key_weights`, and `unexpiredWithId` was false: no value stored under `wk.key`
+      with id `id` had its own deadline ahead;
+    * the clock of `p` is not ahead of the clock of `b`;
+    * if `b` stores an entry `e` under `wk.key` with id `id`, the state of `p` stored one, `e0`, with the same id, and
+      `e0` HAD EXPIRED BY ITS OWN DEADLINE at `p`; `e` has the value and the deadline of `e0` unless some
+      `put_or_update(wk.key)` performed its `upsert.update` action in `h1`, i.e. after the check.
+    And `id` is nobody's fresh id (no `store.put` will create an entry under it). -/
+def swB_Checked (h : List (BState × Act)) (b : BState) (now sh : Nat) (rest : List (Nat × Nat)) (id : Nat) (wk : WKey)
+    (n : Nat) : Prop :=
+  occ b id = 0 ∧ id < b.g.nextId ∧
+  ∃ h1 p h2, h = h1 ++ p :: h2 ∧ swB_isSweeper p.2 = true ∧ p.1.sw = .kwRemove now sh rest id ∧
+    p.1.g.adm.kw.get? id = some wk ∧ unexpiredWithId p.1.g wk.key id = false ∧ p.1.g.now ≤ b.g.now ∧
+    (h1.filter (fun q => swB_isSweeper q.2)).length = n ∧
+    ∀ e, b.g.store.get? wk.key = some e → e.id = id →
+      ∃ e0, p.1.g.store.get? wk.key = some e0 ∧ e0.id = id ∧ (∃ t, e0.expiry = some t ∧ p.1.g.now > t) ∧
+        ((e.expiry = e0.expiry ∧ e.value = e0.value) ∨
+         ∃ q ∈ h1, ∃ i v w ttl rm, q.2 = .client i ∧ q.1.cl[i]? = some (.upUpdate wk.key v w ttl rm))
+
+/-- the record of the check survives every action of every thread -/
+theorem swB_checked_step {h : List (BState × Act)} {b b' : BState} {a : Act} {o o' : Oracle} {now sh id n : Nat}
+    {rest : List (Nat × Nat)} {wk : WKey} (hi : WAbsent b) (hc : swB_Checked h b now sh rest id wk n)
+    (hs : stepB b a o = .ok (b', o')) :
+    swB_Checked ((b, a) :: h) b' now sh rest id wk (n + (if swB_isSweeper a then 1 else 0)) := by
+  obtain ⟨hocc, hlt, h1, p, h2, rfl, hp, hsw, hkw, hu, hnow, hn, hent⟩ := hc
+  obtain ⟨ho, hnx⟩ := swB_step_occ hs id hlt
+  refine ⟨by omega, by omega, (b, a) :: h1, p, h2, rfl, hp, hsw, hkw, hu,
+    Nat.le_trans hnow (C10_layerB_clock_monotone hs), ?_, ?_⟩
+  · simp only [List.filter_cons]
+    split <;> simp_all
+  · intro e' hk' hid'
+    obtain ⟨e, hk, hid, hcase⟩ := swB_entry_back hi hs hocc hk' hid'
+    obtain ⟨e0, hk0, hid0, hexp0, hcase0⟩ := hent e hk hid
+    refine ⟨e0, hk0, hid0, hexp0, ?_⟩
+    rcases hcase with ⟨h3, h4⟩ | ⟨i, v, w, ttl, rm, ha, hpc⟩
+    · rcases hcase0 with ⟨h5, h6⟩ | ⟨q, hq, hrest⟩
+      · exact Or.inl ⟨by rw [h3, h5], by rw [h4, h6]⟩
+      · exact Or.inr ⟨q, List.mem_cons_of_mem _ hq, hrest⟩
+    · exact Or.inr ⟨(b, a), List.mem_cons_self, i, v, w, ttl, rm, ha, hpc⟩
+
+/-- while the sweeper carries an eviction on past `kw.remove`, the history holds the record of its check:
+    no sweeper action since at `wu.sub`, exactly one (the `wu.sub`) at `store.remove` -/
+def swB_ChkInv (h : List (BState × Act)) (b : BState) : Prop :=
+  match b.sw with
+  | .sub now sh rest id wk => swB_Checked h b now sh rest id wk 0
+  | .store now sh rest id wk => swB_Checked h b now sh rest id wk 1
+  | _ => True
+
+theorem swB_chkInv_sweepNext (h : List (BState × Act)) (b : BState) (n sh : Nat) (r : List (Nat × Nat)) :
+    swB_ChkInv h (sweepNext b n sh r) := by
+  unfold swB_ChkInv
+  rcases swB_sweepNext_sw b n sh r with ⟨hs, _⟩ | ⟨hs, _⟩ <;> rw [hs] <;> trivial
+
+theorem swB_chkInv_step {cfg : Cfg} {now0 : Nat} {seeds : List Nat} {clients : Nat} {h : List (BState × Act)}
+    {b b' : BState} {a : Act} {o o' : Oracle} (hr : Reach cfg now0 seeds clients b) (hi : swB_ChkInv h b)
+    (hs : stepB b a o = .ok (b', o')) : swB_ChkInv ((b, a) :: h) b' := by
+  have hwa := wabsent_reach hr
+  by_cases ha : ∀ v, a ≠ .sweeper v
+  · have hsw := (swB_other_step hs ha).1
+    have hns : swB_isSweeper a = false := by
+      cases a <;> first | rfl | exact absurd rfl (ha _)
+    unfold swB_ChkInv at hi ⊢
+    rw [hsw]
+    cases hb : b.sw with
+    | sub now sh rest id wk =>
+      rw [hb] at hi
+      have := swB_checked_step hwa hi hs
+      simpa [hns] using this
+    | store now sh rest id wk =>
+      rw [hb] at hi
+      have := swB_checked_step hwa hi hs
+      simpa [hns] using this
+    | _ => trivial
+  · obtain ⟨v, rfl⟩ := swB_is_sweeper ha
+    have hact := swB_sweeper_step hs
+    cases hsw : b.sw with
+    | begin =>
+      obtain ⟨_, rfl⟩ := swB_begin_spec hsw hact
+      exact swB_chkInv_sweepNext _ _ _ _ _
+    | fin =>
+      rw [swB_fin_spec hsw hact]; trivial
+    | entry n s rest =>
+      obtain ⟨id', e, rfl, hf, ⟨hd, rfl⟩ | ⟨_, rfl⟩⟩ := swB_entry_spec hsw hact
+      · trivial
+      · exact swB_chkInv_sweepNext _ _ _ _ _
+    | kwRemove n s rest i =>
+      rcases swB_kwRemove_spec hsw hact with ⟨wk, ⟨hk, hu⟩, rfl⟩ | ⟨_, rfl⟩
+      · have hused : i ∈ usedIds b := by
+          rw [mem_usedIds]; simp [hsw, SPc.ids]
+        obtain ⟨hocc, hlt⟩ := (binv_reach hr).freshIds.2.2.2.2.1 i hused
+        refine ⟨hocc, hlt, [], (b, .sweeper v), h, rfl, rfl, hsw, hk, hu, Nat.le_refl _, rfl, ?_⟩
+        intro e hke hid
+        exact ⟨e, hke, hid, (unexpiredWithId_eq_false_iff _ _ _).mp hu e hke hid, Or.inl ⟨rfl, rfl⟩⟩
+      · exact swB_chkInv_sweepNext _ _ _ _ _
+    | sub n s rest i wk =>
+      obtain ⟨_, hb'⟩ := swB_sub_spec hsw hact
+      unfold swB_ChkInv at hi
+      rw [hsw] at hi
+      have := swB_checked_step hwa hi hs
+      unfold swB_ChkInv
+      rw [hb']
+      rw [hb'] at this
+      simpa [swB_isSweeper] using this
+    | store n s rest i wk =>
+      obtain ⟨_, rfl⟩ := swB_store_spec hsw hact
+      exact swB_chkInv_sweepNext _ _ _ _ _
+
+theorem swB_reach_run {cfg : Cfg} {now : Nat} {seeds : List Nat} {clients : Nat} {b0 b : BState}
+    {h : List (BState × Act)} (hr : Reach cfg now seeds clients b0) (hrun : RunH b0 h b) :
+    Reach cfg now seeds clients b := by
+  induction hrun with
+  | nil => exact hr
+  | step _ hs ih => exact .step ih hs
+
+theorem swB_chkInv_run {cfg : Cfg} {now0 : Nat} {seeds : List Nat} {clients : Nat} {b0 b : BState}
+    {h : List (BState × Act)} (hr : Reach cfg now0 seeds clients b0) (hrun : RunH b0 h b)
+    (h0 : swB_ChkInv [] b0) : swB_ChkInv h b := by
+  induction hrun with
+  | nil => exact h0
+  | step hrun1 hs ih => exact swB_chkInv_step (swB_reach_run hr hrun1) ih hs
+
+/-- the starting condition of the runs below: the sweeper is not past the `kw.remove` of an eviction (e.g. the initial
+    state, or any state in which the sweeper stands at `sweep.begin` / `sweep.entry` / `sweep.end`) -/
+theorem swB_chkInv_start {b0 : BState} (h0 : b0.sw.victim? = none) : swB_ChkInv [] b0 := by
+  unfold swB_ChkInv
+  cases hsw : b0.sw <;> simp_all [SPc.victim?]
+
+/-- **(2) The sweeper removes only an entry that had expired by its OWN stored deadline when the sweeper checked.**
+    Along any run (history `h`, latest first) from a reachable state in which the sweeper is not in the middle of an
+    eviction: whenever the sweeper's `store.remove` action for `id` finds the key `wk.key` stored under that id (entry
+    `e`) — and so removes it — the history is `h1 ++ p :: h2` where `p` is the sweeper's OWN `kw.remove` action for this
+    id, two sweeper actions earlier (`h1` holds exactly one sweeper action, the `wu.sub`), and IN THE STATE OF `p`
+    * the charge `wk` was found, and the store held under `wk.key` an entry `e0` WITH THE SAME ID whose own deadline
+      `t` the clock had passed (`unexpiredWithId = false`);
+    * the entry `e` removed now has the value and the deadline of `e0` — then it is expired at the removal as well —
+      unless some `put_or_update(wk.key)` performed its `upsert.update` action between the check and the removal. -/
+theorem C10_layerB_removes_only_expired_at_check {cfg : Cfg} {now0 : Nat} {seeds : List Nat} {clients : Nat}
+    {b0 b b' : BState} {h : List (BState × Act)} {v : Option Nat} {o o' : Oracle} {now sh id : Nat}
+    {rest : List (Nat × Nat)} {wk : WKey} {e : Entry}
+    (hr : Reach cfg now0 seeds clients b0) (hrun : RunH b0 h b) (h0 : b0.sw.victim? = none)
+    (hs : stepB b (.sweeper v) o = .ok (b', o')) (hsw : b.sw = .store now sh rest id wk)
+    (hk : b.g.store.get? wk.key = some e) (hid : e.id = id) :
+    b'.g.store.get? wk.key = none ∧
+    ∃ h1 p h2, h = h1 ++ p :: h2 ∧ (∃ v', p.2 = .sweeper v') ∧ p.1.sw = .kwRemove now sh rest id ∧
+      (h1.filter (fun q => swB_isSweeper q.2)).length = 1 ∧
+      p.1.g.adm.kw.get? id = some wk ∧ unexpiredWithId p.1.g wk.key id = false ∧ p.1.g.now ≤ b.g.now ∧
+      ∃ e0 t, p.1.g.store.get? wk.key = some e0 ∧ e0.id = id ∧ e0.expiry = some t ∧ p.1.g.now > t ∧
+        ((e.expiry = some t ∧ e.value = e0.value ∧ b.g.now > t) ∨
+         ∃ q ∈ h1, ∃ i v w ttl rm, q.2 = .client i ∧ q.1.cl[i]? = some (.upUpdate wk.key v w ttl rm)) := by
+  have hinv := swB_chkInv_run hr hrun (swB_chkInv_start h0)
+  unfold swB_ChkInv at hinv
+  rw [hsw] at hinv
+  obtain ⟨_, _, h1, p, h2, rfl, hp, hpsw, hkw, hu, hnow, hn, hent⟩ := hinv
+  obtain ⟨e0, hk0, hid0, ⟨t, ht, hgt⟩, hcase⟩ := hent e hk hid
+  refine ⟨(C10_layerB_storeRemove_matching hsw (swB_sweeper_step hs) hk hid).2, h1, p, h2, rfl, ?_, hpsw, hn, hkw, hu,
+    hnow, e0, t, hk0, hid0, ht, hgt, ?_⟩
+  · cases hpa : p.2 <;> simp_all [swB_isSweeper]
+  · rcases hcase with ⟨h5, h6⟩ | hq
+    · exact Or.inl ⟨by rw [h5, ht], h6, by omega⟩
+    · exact Or.inr hq
+
+/-- **… hence an entry that is NOT expired when the sweeper removes it was rewritten in between**: if the entry the
+    sweeper's `store.remove` takes away has no deadline, or a deadline the clock has not passed, then some
+    `put_or_update` of that key performed its `upsert.update` action AFTER the sweeper's check (`kw.remove`) and before
+    the removal — and the entry it rewrote had expired at the check (known finding D3: `put_or_update` revives an
+    expired entry in place, under the same id, while its eviction is under way). -/
+theorem C10_layerB_removes_unexpired_only_after_upsert {cfg : Cfg} {now0 : Nat} {seeds : List Nat} {clients : Nat}
+    {b0 b b' : BState} {h : List (BState × Act)} {v : Option Nat} {o o' : Oracle} {now sh id : Nat}
+    {rest : List (Nat × Nat)} {wk : WKey} {e : Entry}
+    (hr : Reach cfg now0 seeds clients b0) (hrun : RunH b0 h b) (h0 : b0.sw.victim? = none)
+    (hs : stepB b (.sweeper v) o = .ok (b', o')) (hsw : b.sw = .store now sh rest id wk)
+    (hk : b.g.store.get? wk.key = some e) (hid : e.id = id) (hlive : ∀ t, e.expiry = some t → ¬ b.g.now > t) :
+    ∃ h1 p h2, h = h1 ++ p :: h2 ∧ (∃ v', p.2 = .sweeper v') ∧ p.1.sw = .kwRemove now sh rest id ∧
+      (∃ e0 t, p.1.g.store.get? wk.key = some e0 ∧ e0.id = id ∧ e0.expiry = some t ∧ p.1.g.now > t) ∧
+      ∃ q ∈ h1, ∃ i v w ttl rm, q.2 = .client i ∧ q.1.cl[i]? = some (.upUpdate wk.key v w ttl rm) := by
+  obtain ⟨_, h1, p, h2, rfl, hp, hpsw, _, _, _, _, e0, t, hk0, hid0, ht, hgt, hcase⟩ :=
+    C10_layerB_removes_only_expired_at_check hr hrun h0 hs hsw hk hid
+  refine ⟨h1, p, h2, rfl, hp, hpsw, ⟨e0, t, hk0, hid0, ht, hgt⟩, ?_⟩
+  rcases hcase with ⟨h5, _, h7⟩ | hq
+  · exact absurd h7 (hlive t h5)
+  · exact hq
+
+/-- **The sweeper never removes a live key — what is true now, with the entry's OWN deadline** (the statement of
+    Layer A's `C10_never_removes_live`, at action granularity; `C10_layerB_never_removes_live` above is the part that
+    needs no history).  Along any run from a reachable state in which the sweeper is not in the middle of an eviction:
+    if a sweeper action takes the entry `en` away from key `k` (afterwards `k` is absent or holds another id), then
+    * `en` has expired by its own deadline at that very moment, or
+    * a `put_or_update(k)` performed its `upsert.update` action after the sweeper's `kw.remove` of this id and before
+      this removal, and at that `kw.remove` the entry stored under `k` with this id had expired by its own deadline
+      (the upsert revived an expired entry in place: known finding D3, `C10_layerB_upsert_after_check_loses_key`).
+    Before fix 36c87dc only "the deadline THE INDEX held at the visit had passed" was true
+    (`C10_layerB_evict_due`); the run that refuted the present statement then is now
+    `C10_layerB_second_race_fixed`. -/
+theorem C10_layerB_never_removes_live_own_deadline {cfg : Cfg} {now0 : Nat} {seeds : List Nat} {clients : Nat}
+    {b0 b b' : BState} {h : List (BState × Act)} {v : Option Nat} {o o' : Oracle} {k : Nat} {en : Entry}
+    (hr : Reach cfg now0 seeds clients b0) (hrun : RunH b0 h b) (h0 : b0.sw.victim? = none)
+    (hs : stepB b (.sweeper v) o = .ok (b', o')) (hk : b.g.store.get? k = some en)
+    (hne : ∀ en', b'.g.store.get? k = some en' → en'.id ≠ en.id) :
+    (∃ t, en.expiry = some t ∧ b.g.now > t) ∨
+    (∃ h1 p h2 now sh rest, h = h1 ++ p :: h2 ∧ (∃ v', p.2 = .sweeper v') ∧ p.1.sw = .kwRemove now sh rest en.id ∧
+      (∃ e0 t, p.1.g.store.get? k = some e0 ∧ e0.id = en.id ∧ e0.expiry = some t ∧ p.1.g.now > t) ∧
+      ∃ q ∈ h1, ∃ i v w ttl rm, q.2 = .client i ∧ q.1.cl[i]? = some (.upUpdate k v w ttl rm)) := by
+  obtain ⟨now, sh, rest, wk, hsw, _, hkey⟩ :=
+    C10_layerB_never_removes_live (swB_reach_run hr hrun) hs hk rfl hne
+  subst hkey
+  obtain ⟨_, h1, p, h2, rfl, hp, hpsw, _, _, _, _, e0, t, hk0, hid0, ht, hgt, hcase⟩ :=
+    C10_layerB_removes_only_expired_at_check hr hrun h0 hs hsw hk rfl
+  rcases hcase with ⟨h5, _, h7⟩ | hq
+  · exact Or.inl ⟨t, h5, h7⟩
+  · exact Or.inr ⟨h1, p, h2, now, sh, rest, rfl, hp, hpsw, ⟨e0, t, hk0, hid0, ht, hgt⟩, hq⟩
 
 /-! ## 5  concrete interleavings: non-vacuity, and the counterexamples
 
@@ -1086,22 +1456,152 @@ example : swB_at (swB_twoKeys ++ [(.sweeper none, noO), (.sweeper (some 1), noO)
      | .ok b' => decide (b'.g.store.get? 1 = none)
      | _ => false)) = true := by decide
 
-/-- A second race, with the SAME id: `put_or_update(1, ttl 1000)` extends the deadline of key 1 in the stored value
-    (to 1010) right after the sweeper has found the old deadline 5 due; the sweeper carries the eviction through and
-    removes an entry whose CURRENT deadline lies in the future.  The Layer A statement `Cached.C10_never_removes_live`
-    (the current deadline counts) therefore holds only for sweeps that are not interleaved with an update of the key;
-    at action granularity what holds is `C10_layerB_visit_decision` / `C10_layerB_evict_due`: the deadline the index
-    held at the visit had passed. -/
-example : swB_at (call 0 (.putW 1 100 3 (some 5)) 4 ++ workerN 7 ++
-      [(.advance 10, noO), (.sweeper none, noO), (.sweeper (some 1), noO)] ++
-      call 0 (.upsert 1 none none (some 1000) false) 2 ++ [(.sweeper none, noO), (.sweeper none, noO)]) (fun b =>
-    (match b.sw with | .store now _ _ id wk => decide (now = 10 ∧ id = 1 ∧ wk.key = 1) | _ => false) &&
-    (match b.g.store.get? 1 with
-     | some en => decide (en.id = 1 ∧ en.expiry = some 1010) && en.alive b.g.now
-     | none => false) &&
+/-! ### the second race, with the SAME id: `put_or_update` extends the deadline of a key the sweeper has found due
+
+  Key 1 (id 1, deadline 5) expires; the sweeper visits it (`sweep.entry`: the index entry is due and goes).  A
+  `put_or_update(1, ttl 1000)` extends the deadline in the STORED value (to 1010); its index update waits for the
+  shard lock.  Before fix 36c87dc the sweeper carried the eviction through whenever the upsert came after the VISIT:
+  it removed an entry whose own deadline lay in the future (the former `example` at this place; defects D12 / D13).
+  Now `kw.remove` re-validates against the store:
+    * upsert BEFORE the sweeper's `kw.remove` (the check): the sweeper skips, the key stays stored and charged, and the
+      upsert then enters the new deadline into the index — `C10_layerB_second_race_fixed`;
+    * upsert AFTER `kw.remove` (between the check and `store.remove`): the charge is already out, the eviction is
+      carried through and the key is lost — `C10_layerB_upsert_after_check_loses_key`.  The entry HAD expired (deadline
+      5, clock 10) when the upsert rewrote it: this is known finding D3 (`put_or_update` revives an expired entry in
+      place), and it is exactly the exception of `C10_layerB_removes_only_expired_at_check`. -/
+
+/-- the sweeper has found the index entry of key 1 due and stands at `kw.remove`; clock 10, deadline 5 -/
+def swB_visited : List (Act × Oracle) :=
+  call 0 (.putW 1 100 3 (some 5)) 4 ++ workerN 7 ++
+  [(.advance 10, noO), (.sweeper none, noO), (.sweeper (some 1), noO)]
+
+/-- non-vacuity of `C10_layerB_kwRemove_only_if_store_expired` / `C10_layerB_kwRemove_found`: at `kw.remove` the charge
+    is there, the stored value (same id) has expired by its own deadline, the action takes the charge out -/
+example : swB_at swB_visited (fun b =>
+    (match b.sw with | .kwRemove now sh rest id => decide (now = 10 ∧ sh = 0 ∧ rest = [] ∧ id = 1) | _ => false) &&
+    decide (b.g.adm.kw.get? 1 = some ⟨1, 1, 3⟩ ∧ unexpiredWithId b.g 1 1 = false ∧
+            b.g.store.get? 1 = some ⟨100, 1, some 5, false⟩ ∧ b.g.now = 10) &&
     (match sweeperAct b none with
-     | .ok b' => decide (b'.g.store.get? 1 = none ∧ b'.g.adm.used = 0)
+     | .ok b' => (match b'.sw with | .sub _ _ _ id wk => decide (id = 1 ∧ wk = ⟨1, 1, 3⟩) | _ => false) &&
+                 decide (b'.g.adm.kw.get? 1 = none)
      | _ => false)) = true := by decide
+
+/-- **The second race, fixed (D12 / D13).**  The upsert extends the deadline after the sweeper's VISIT but before its
+    `kw.remove`: at `kw.remove` the charge is there but the stored value (same id) has its own deadline 1010 ahead —
+    the hypotheses of `C10_layerB_skip_harmless` — the sweeper skips and arrives at `sweep.end`; the key is still
+    stored, still charged, the total is untouched. -/
+theorem C10_layerB_second_race_fixed :
+    swB_at (swB_visited ++ call 0 (.upsert 1 none none (some 1000) false) 2) (fun b =>
+      (match b.sw with | .kwRemove now _ _ id => decide (now = 10 ∧ id = 1) | _ => false) &&
+      decide (b.g.adm.kw.get? 1 = some ⟨1, 1, 3⟩ ∧ unexpiredWithId b.g 1 1 = true ∧
+              b.g.store.get? 1 = some ⟨100, 1, some 1010, false⟩) &&
+      (match sweeperAct b none with
+       | .ok b' => (match b'.sw with | .fin => true | _ => false) &&
+                   decide (b'.g.store.get? 1 = some ⟨100, 1, some 1010, false⟩ ∧ b'.g.adm.kw.get? 1 = some ⟨1, 1, 3⟩ ∧
+                           b'.g.adm.used = 3 ∧ b'.ttlOwner = none ∧ b'.wuOwner = none)
+       | _ => false)) = true := by decide
+
+/-- … and the run carried to its end: the sweeper finishes the sweep, the upsert finishes (its index update enters the
+    new deadline, no weight update is due) and a second sweep at clock 20 leaves the key alone: stored, alive,
+    charged, indexed under the new deadline. -/
+theorem C10_layerB_second_race_fixed_end :
+    swB_at (swB_visited ++ call 0 (.upsert 1 none none (some 1000) false) 2 ++ [(.sweeper none, noO), (.sweeper none, noO)] ++
+        List.replicate 3 (.client 0, noO) ++
+        [(.advance 10, noO), (.sweeper none, noO), (.sweeper (some 1), noO), (.sweeper none, noO)]) (fun b =>
+      (match b.sw with | .begin => true | _ => false) &&
+      (match b.g.store.get? 1 with
+       | some en => decide (en = ⟨100, 1, some 1010, false⟩) && en.alive b.g.now
+       | none => false) &&
+      decide (b.g.adm.kw.get? 1 = some ⟨1, 1, 3⟩ ∧ b.g.adm.used = 3 ∧ b.g.ttl = [((0, 1), 1010)] ∧ b.g.now = 20 ∧
+              b.ttlOwner = none ∧ b.wuOwner = none) &&
+      (match b.cl[0]?, b.res[0]? with
+       | some CPc.idle, some (Out.ack _ st :: _) => decide (st = .accepted)
+       | _, _ => false)) = true := by decide
+
+/-- **The upsert that comes after the check still loses the key (known finding D3).**  The sweeper's `kw.remove` has
+    run (the stored value, deadline 5, had expired at clock 10: the charge is out); THEN the upsert extends the
+    deadline of the expired entry in place (same id); the sweeper's `wu.sub` and `store.remove` carry the eviction
+    through: an entry whose own deadline (1010) lies in the future is removed.  This is the exception clause of
+    `C10_layerB_removes_only_expired_at_check`: an `upsert.update` of the key between the check and the removal, on an
+    entry that was expired at the check. -/
+theorem C10_layerB_upsert_after_check_loses_key :
+    swB_at (swB_visited ++ [(.sweeper none, noO)] ++ call 0 (.upsert 1 none none (some 1000) false) 2 ++
+        [(.sweeper none, noO)]) (fun b =>
+      (match b.sw with | .store now _ _ id wk => decide (now = 10 ∧ id = 1 ∧ wk.key = 1) | _ => false) &&
+      (match b.g.store.get? 1 with
+       | some en => decide (en.id = 1 ∧ en.expiry = some 1010) && en.alive b.g.now
+       | none => false) &&
+      (match sweeperAct b none with
+       | .ok b' => decide (b'.g.store.get? 1 = none ∧ b'.g.adm.kw.get? 1 = none ∧ b'.g.adm.used = 0)
+       | _ => false)) = true := by decide
+
+/-- the run of `C10_layerB_upsert_after_check_loses_key` as a history: the hypotheses of
+    `C10_layerB_removes_only_expired_at_check` and of `C10_layerB_removes_unexpired_only_after_upsert` are satisfiable
+    (the sweeper at `store.remove` of id 1, key 1 stored under id 1 with a deadline that has NOT passed), and so are
+    those of the ordinary case (no upsert: `swB_visited ++ [kw.remove, wu.sub]`, the entry removed is expired) -/
+theorem C10_layerB_removes_only_expired_at_check_witness :
+    (∃ h b, RunH (BState.init cfgEx 0 [1, 2, 3, 4] 2) h b ∧ (BState.init cfgEx 0 [1, 2, 3, 4] 2).sw.victim? = none ∧
+      b.sw = .store 10 0 [] 1 ⟨1, 1, 3⟩ ∧ b.g.store.get? 1 = some ⟨100, 1, some 1010, false⟩ ∧ b.g.now = 10 ∧
+      ∃ b', stepB b (.sweeper none) noO = .ok (b', noO)) ∧
+    (∃ h b, RunH (BState.init cfgEx 0 [1, 2, 3, 4] 2) h b ∧
+      b.sw = .store 10 0 [] 1 ⟨1, 1, 3⟩ ∧ b.g.store.get? 1 = some ⟨100, 1, some 5, false⟩ ∧ b.g.now = 10 ∧
+      ∃ b', stepB b (.sweeper none) noO = .ok (b', noO)) := by
+  constructor
+  · have hh : ∃ h b, histOf (BState.init cfgEx 0 [1, 2, 3, 4] 2)
+        (swB_visited ++ [(.sweeper none, noO)] ++ call 0 (.upsert 1 none none (some 1000) false) 2 ++
+          [(.sweeper none, noO)]) [] = .ok (h, b) ∧
+        b.sw = .store 10 0 [] 1 ⟨1, 1, 3⟩ ∧ b.g.store.get? 1 = some ⟨100, 1, some 1010, false⟩ ∧ b.g.now = 10 ∧
+        ∃ b', stepB b (.sweeper none) noO = .ok (b', noO) := ⟨_, _, rfl, rfl, by decide, by decide, _, rfl⟩
+    obtain ⟨h, b, hrun, h1, h2, h3, h4⟩ := hh
+    exact ⟨h, b, runH_histOf _ (.nil _) hrun, rfl, h1, h2, h3, h4⟩
+  · have hh : ∃ h b, histOf (BState.init cfgEx 0 [1, 2, 3, 4] 2)
+        (swB_visited ++ [(.sweeper none, noO), (.sweeper none, noO)]) [] = .ok (h, b) ∧
+        b.sw = .store 10 0 [] 1 ⟨1, 1, 3⟩ ∧ b.g.store.get? 1 = some ⟨100, 1, some 5, false⟩ ∧ b.g.now = 10 ∧
+        ∃ b', stepB b (.sweeper none) noO = .ok (b', noO) := ⟨_, _, rfl, rfl, by decide, by decide, _, rfl⟩
+    obtain ⟨h, b, hrun, h1, h2, h3, h4⟩ := hh
+    exact ⟨h, b, runH_histOf _ (.nil _) hrun, h1, h2, h3, h4⟩
+
+/-! ### what the fix does NOT repair: an index left out of step is not put right by the skip
+
+  Two overlapping `put_or_update`s of key 1 (A: ttl 1000, B: ttl 2000, both at clock 0) leave the index out of step
+  with the store (the root of D13, untouched by fix 36c87dc): A's `upsert.update` runs first (stored deadline 1000, A
+  will move the index entry 5 → 1000), B runs completely (stored deadline 2000, index 2000), then A's two index actions
+  run (index 1000).  Store: deadline 2000; index: 1000; no call pending.  At clock 1500 the sweeper finds the index
+  entry due, takes it out (`sweep.entry`), and at `kw.remove` finds the stored value unexpired: it SKIPS — the key is no
+  longer lost (before the fix it was removed with 500 ns to live) — but the index entry is gone and nothing puts one
+  back: the key is stored, charged and NOT INDEXED.  Once its deadline 2000 has passed (clock 2500) reads miss, yet no
+  sweep ever visits it: the entry and its weight 3 stay until a delete, an upsert or an eviction under pressure
+  ("every expired key is eventually removed by the sweeper" fails on this run). -/
+
+def swB_outOfStep : List (Act × Oracle) :=
+  call 0 (.putW 1 100 3 (some 5)) 4 ++ workerN 7 ++
+  call 0 (.upsert 1 none none (some 1000) false) 3 ++ call 1 (.upsert 1 none none (some 2000) false) 5 ++
+  List.replicate 2 (.client 0, noO)
+
+example : swB_at swB_outOfStep (fun b =>
+    decide (b.g.store.get? 1 = some ⟨100, 1, some 2000, false⟩ ∧ b.g.ttl = [((0, 1), 1000)] ∧
+            b.g.adm.kw.get? 1 = some ⟨1, 1, 3⟩ ∧ b.g.now = 0) &&
+    (match b.cl[0]?, b.cl[1]? with | some CPc.idle, some CPc.idle => true | _, _ => false)) = true := by decide
+
+/-- the sweep at clock 1500 skips the key (it is kept: the fix) and leaves it without an index entry; at clock 2500
+    the key has expired, a whole sweep of its shard visits nothing, and the key is still stored and charged -/
+theorem C10_layerB_skip_leaves_key_unindexed :
+    swB_at (swB_outOfStep ++ [(.advance 1500, noO), (.sweeper none, noO), (.sweeper (some 1), noO), (.sweeper none, noO),
+        (.sweeper none, noO)]) (fun b =>
+      (match b.sw with | .begin => true | _ => false) &&
+      (match b.g.store.get? 1 with
+       | some en => decide (en = ⟨100, 1, some 2000, false⟩) && en.alive b.g.now
+       | none => false) &&
+      decide (b.g.ttl = [] ∧ b.g.adm.kw.get? 1 = some ⟨1, 1, 3⟩ ∧ b.g.adm.used = 3)) = true ∧
+    swB_at (swB_outOfStep ++ [(.advance 1500, noO), (.sweeper none, noO), (.sweeper (some 1), noO), (.sweeper none, noO),
+        (.sweeper none, noO), (.advance 1000, noO), (.sweeper none, noO), (.sweeper none, noO)]) (fun b =>
+      (match b.sw with | .begin => true | _ => false) &&
+      (match b.g.store.get? 1 with
+       | some en => decide (en = ⟨100, 1, some 2000, false⟩) && !en.alive b.g.now
+       | none => false) &&
+      decide (b.g.now = 2500 ∧ b.g.ttl = [] ∧ b.g.adm.kw.get? 1 = some ⟨1, 1, 3⟩ ∧ b.g.adm.used = 3 ∧
+              b.ttlOwner = none)) = true := by
+  constructor <;> decide
 
 end B
 end Cached
